@@ -6,7 +6,7 @@ wt=/tmp/confirm-$id
 git -C /repo worktree add -q --detach $wt HEAD || exit 2
 cd $wt
 base=$(PYTHONPATH=$wt /venv/bin/python -m pytest -q -p no:cacheprovider $tests 2>&1 | grep -E "^(FAILED|ERROR)" | sort | md5sum)
-for m in $src/out/m*; do
+for m in $src/out/m[0-9]; do
   n=$(basename $m)
   git apply $m/patch.diff || { echo "$n: patch failed"; continue; }
   t=$(PYTHONPATH=$wt /venv/bin/python -m pytest -q -p no:cacheprovider $tests 2>&1 | grep -E "^(FAILED|ERROR)" | sort | md5sum)
